@@ -44,7 +44,7 @@ json.dump([{"id": r[0], "kind": r[1], "status": r[2], "rules": r[3], "checks": r
 cat = json.load(open("/verif/mutants/catalogue.json"))
 bad = 0
 for iid, kind, status, rules, pids, edit, exp in rows:
-    if kind == "benign-unsupported":
+    if kind.endswith("-unsupported"):
         if pids or status != "inconclusive":
             print("UNSUPPORTED VARIANT NOT INCONCLUSIVE", iid, status, rules, pids, file=sys.stderr); bad += 1
         continue
